@@ -146,10 +146,10 @@ Proof. exact ddlog_clock_irrelevant. Qed.
 Print Assumptions clock_irrelevant_for_timestamped_entries.
 
 Theorem decode_faithful_datadog_metrics :
-  forall fp enc_len CS cache_add cache0 threshold flush_limit ctx_ttl (body : list ddseries),
-  exists cs, decode fp enc_len CS cache_add cache0 threshold flush_limit ctx_ttl (BDDMet body) = Done cs /\
-             Forall chunk_rect cs /\ rows_of cs = rows_spec fp ctx_ttl (entries_ddmet body).
-Proof. intros. exact (decode_faithful_all fp enc_len CS cache_add cache0 threshold flush_limit ctx_ttl (BDDMet body)). Qed.
+  forall fp enc_len CS cache_add cache0 threshold flush_limit ctx_ttl (ck : clock) (body : list ddseries),
+  exists cs, decode fp enc_len CS cache_add cache0 threshold flush_limit ctx_ttl (BDDMet ck body) = Done cs /\
+             Forall chunk_rect cs /\ rows_of cs = rows_spec fp ctx_ttl (entries_ddmet ck body).
+Proof. intros. exact (decode_faithful_all fp enc_len CS cache_add cache0 threshold flush_limit ctx_ttl (BDDMet ck body)). Qed.
 Print Assumptions decode_faithful_datadog_metrics.
 
 Theorem decode_faithful_otlp_logs :
@@ -277,6 +277,21 @@ Proof.
   exact (decode_faithful_all fp enc_len CS cache_add cache0 threshold flush_limit ctx_ttl (BLokiPb streams)).
 Qed.
 Print Assumptions decode_faithful_loki_protobuf_text.
+
+(* ... and with label names beyond ASCII (uwstream_ok: a non-empty list of pairs whose names scanIdentifier reads as one identifier) *)
+Theorem decode_faithful_loki_protobuf_text_unicode_names :
+  forall (uletter udigit : string -> bool) fp enc_len CS cache_add cache0 threshold flush_limit ctx_ttl blank
+         (ws : list (list (string * list qel) * list lentry)),
+  all_bytes is_ws blank = true -> forallb (uwstream_ok uletter udigit) ws = true ->
+  let streams := map (fun s => LS (labels_written (fst s)) (snd s)) ws in
+  pb_streams_of_texts uletter udigit (map (fun s => (print_labels blank (fst s), snd s)) ws) = Some streams /\
+  exists cs, decode fp enc_len CS cache_add cache0 threshold flush_limit ctx_ttl (BLokiPb streams) = Done cs /\
+             Forall chunk_rect cs /\ rows_of cs = rows_spec fp ctx_ttl (entries_loki_pb streams).
+Proof.
+  intros. split; [now apply pb_texts_read_back_u|].
+  exact (decode_faithful_all fp enc_len CS cache_add cache0 threshold flush_limit ctx_ttl (BLokiPb streams)).
+Qed.
+Print Assumptions decode_faithful_loki_protobuf_text_unicode_names.
 
 (* ---------------------------------------------------------------- timestamp texts (parseTime, model/LokiTime.v)
    time.Parse(time.RFC3339, .) is universally quantified (rfc). *)
@@ -408,14 +423,14 @@ Print Assumptions decode_faithful_datadog_logs_document.
 (* the same for Datadog metrics: {"series":[{metric?, resources:[{k:v..}..], points:[{timestamp, value}..], type}..]} is walked into
    the series it was written from; one faithful row per point, with the labels __name__ / resource<i>_<key> of its own series *)
 Theorem decode_faithful_datadog_metrics_document :
-  forall fp enc_len CS cache_add cache0 threshold flush_limit ctx_ttl (ws : list wseries),
+  forall fp enc_len CS cache_add cache0 threshold flush_limit ctx_ttl (ck : clock) (ws : list wseries),
   let series := map wseries_series ws in
   ddmet_document (JObj [("series"%string, JArr (map wseries_doc ws))]) = WOk series /\
-  exists cs, decode fp enc_len CS cache_add cache0 threshold flush_limit ctx_ttl (BDDMet series) = Done cs /\
-             Forall chunk_rect cs /\ rows_of cs = rows_spec fp ctx_ttl (entries_ddmet series).
+  exists cs, decode fp enc_len CS cache_add cache0 threshold flush_limit ctx_ttl (BDDMet ck series) = Done cs /\
+             Forall chunk_rect cs /\ rows_of cs = rows_spec fp ctx_ttl (entries_ddmet ck series).
 Proof.
   intros. split; [apply ddmet_document_written_l|].
-  exact (decode_faithful_all fp enc_len CS cache_add cache0 threshold flush_limit ctx_ttl (BDDMet series)).
+  exact (decode_faithful_all fp enc_len CS cache_add cache0 threshold flush_limit ctx_ttl (BDDMet ck series)).
 Qed.
 Print Assumptions decode_faithful_datadog_metrics_document.
 
@@ -576,9 +591,17 @@ Example unicode_label_names_hypotheses_met :
   let uletter := fun s => String.eqb s "é" || String.eqb s "名" in
   let udigit := fun s => String.eqb s "٣" in
   let ls := [("région", [QByte "x"%char]); ("名٣_a9", [QRune "é"]); ("plain_1", [])]%string in
-  forallb (upair_ok uletter udigit) ls = true /\
+  forallb (upair_ok uletter udigit) ls = true /\ uwstream_ok uletter udigit (ls, [LE 1 (Some "x"%string) None]) = true /\
   uname_ok uletter udigit "٣x"%string = false /\ uname_ok (fun _ => false) udigit "région"%string = false /\
   parse_labels uletter udigit (print_labels "" ls) [] = Some (labels_written ls) /\
   map fst (labels_written ls) = ["région"; "名٣_a9"; "plain_1"]%string.
 Proof. vm_compute. repeat split. Qed.
+
+(* Datadog metric points without a timestamp: the leading ones carry the clock reading taken when the points array began *)
+Example datadog_metric_points_without_timestamp_computed :
+  let doc := JObj [("series", JArr [JObj [("metric", JStr "m"); ("points", JArr [JObj [("value", JNum 5%N None)]; JObj [("value", JNum 6%N None)];
+                                            JObj [("timestamp", JNum 0%N (Some 1700000000)); ("value", JNum 7%N None)]; JObj [("value", JNum 8%N None)]])]])]%string in
+  ddmet_document doc = WOk [DS (Some "m"%string) [] [(1700000000, 7%N); (1700000000, 8%N)] [5%N; 6%N]] /\
+  map e_ts (entries_ddmet (CK 0 9 [4]) [DS (Some "m"%string) [] [(1700000000, 7%N); (1700000000, 8%N)] [5%N; 6%N]]) = [4; 4; 1700000000000000000; 1700000000000000000].
+Proof. vm_compute. split; reflexivity. Qed.
 
